@@ -414,3 +414,84 @@ func VerifC03SelectForUpdate() {
 		}
 	}
 }
+
+// VerifC16InGtx (second sentence of C16): inside a global transaction a
+// business statement returns what the plain driver returns and leaves the same
+// data; the only additional statements the database sees are image queries.
+// The same statement runs through the AT proxy on one stub database and
+// directly on a twin with identical (symbolic) content.
+func VerifC16InGtx() {
+	k := vrt.Choice("statement", len(c18Stmts))
+	st := c18Stmts[k]
+	if !st.valid {
+		return
+	}
+	w := c18Setup(st.composite)
+	// the twin
+	twin := &aDB{table: w.d.table, cols: w.d.cols, pk: w.d.pk, auto: w.d.auto, failAt: -1, nextAuto: w.d.nextAuto}
+	for _, r := range w.d.rows {
+		twin.rows = append(twin.rows, aRow{cells: append([]int64(nil), r.cells...), present: r.present})
+	}
+	args := make([]driver.NamedValue, st.nargs)
+	names := []string{"arg0", "arg1", "arg2", "arg3", "arg4", "arg5"}
+	for i := range args {
+		if kv, ok := st.keyArgs[i]; ok {
+			args[i] = driver.NamedValue{Ordinal: i + 1, Value: kv}
+		} else {
+			args[i] = driver.NamedValue{Ordinal: i + 1, Value: vrt.Int64(names[i])}
+		}
+	}
+	plainRes, plainErr := (&aConn{twin}).ExecContext(context.Background(), st.query, args)
+
+	tx, err := w.c.BeginTx(w.ctx, driver.TxOptions{})
+	vrt.Assert(err == nil && tx != nil, "gtx/begin-ok")
+	var res driver.Result
+	panicked := false
+	func() {
+		defer func() {
+			if recover() != nil {
+				panicked = true
+			}
+		}()
+		res, err = w.c.ExecContext(w.ctx, st.query, args)
+	}()
+	vrt.Reach("gtx/" + st.name)
+	vrt.Assert(!panicked, "gtx/no-panic/"+st.name)
+	if panicked || w.d.bad != "" || twin.bad != "" {
+		return
+	}
+	vrt.Assert((err != nil) == (plainErr != nil), "gtx/fails-iff-the-plain-driver-fails/"+st.name)
+	if err != nil || plainErr != nil {
+		return
+	}
+	pa, _ := plainRes.RowsAffected()
+	pl, _ := plainRes.LastInsertId()
+	ra, _ := res.RowsAffected()
+	rl, _ := res.LastInsertId()
+	vrt.Assert(ra == pa && rl == pl, "gtx/same-result/"+st.name)
+	// same data
+	same := len(w.d.rows) == len(twin.rows)
+	for i := 0; same && i < len(twin.rows); i++ {
+		a, b := w.d.rows[i], twin.rows[i]
+		if a.present != b.present {
+			same = false
+		}
+		for c := 0; same && a.present && c < len(a.cells); c++ {
+			if a.cells[c] != b.cells[c] {
+				same = false
+			}
+		}
+	}
+	vrt.Assert(same, "gtx/same-data/"+st.name)
+	// nothing but the business statement and SELECTs reached the database
+	business := 0
+	for _, q := range w.d.journal {
+		uq := strings.ToUpper(strings.TrimSpace(q))
+		if q == st.query {
+			business++
+		} else {
+			vrt.Assert(strings.HasPrefix(uq, "SELECT"), "gtx/only-image-queries-are-added/"+st.name)
+		}
+	}
+	vrt.Assert(business == 1, "gtx/business-statement-sent-exactly-once/"+st.name)
+}
